@@ -37,11 +37,16 @@ P = {
                 genx={Q: ("CfgsOne", 4), T: ("CfgsOne", 6)},
                 sim={Q: ("CfgsRefresh", 400, 16), T: ("CfgsRefresh", 6000, 30)},
                 simb=dict(MaxCodes=3, MaxAT=16, MaxRT=14, MaxNow=5)),
-    "C05": dict(family="C05", mc={Q: ("CfgsOne", dict(MaxCodes=1, MaxAT=3, MaxRT=3, MaxNow=0, Depth=4)),
-                                  T: ("CfgsRefresh", dict(MaxCodes=1, MaxAT=4, MaxRT=3, MaxNow=0, Depth=5))},
-                genx={Q: ("CfgsOne", 3), T: ("CfgsRefresh", 3)},
+    "C05": dict(family="C05", mc={Q: ("CfgsRS", dict(MaxCodes=1, MaxAT=3, MaxRT=3, MaxNow=0, MaxDev=1, Depth=4)),
+                                  T: ("CfgsRefresh", dict(MaxCodes=1, MaxAT=4, MaxRT=3, MaxNow=0, MaxDev=1, Depth=5))},
+                genx={Q: ("CfgsRS", 3), T: ("CfgsRefresh", 4)},
                 sim={Q: ("CfgsRefresh", 500, 10), T: ("CfgsRefresh", 8000, 16)},
-                simb=dict(MaxCodes=3, MaxAT=10, MaxRT=8, MaxNow=0)),
+                simb=dict(MaxCodes=3, MaxAT=10, MaxRT=8, MaxNow=0, MaxDev=2),
+                more=[dict(family="C05b", mc={Q: ("CfgsRSB", dict(MaxCodes=1, MaxAT=3, MaxRT=2, MaxNow=0, MaxDev=1, Depth=5)),
+                                               T: ("CfgsRSB", dict(MaxCodes=2, MaxAT=4, MaxRT=3, MaxNow=0, MaxDev=1, Depth=7))},
+                           genx={Q: ("CfgsRSB", 4), T: ("CfgsRSB", 5)},
+                           sim={Q: ("CfgsRSB", 300, 8), T: ("CfgsRSB", 4000, 12)},
+                           simb=dict(MaxCodes=2, MaxAT=8, MaxRT=6, MaxNow=0, MaxDev=2))]),
     "C07": dict(family="C07", mc={Q: ("CfgsExpiry", dict(MaxCodes=1, MaxAT=3, MaxRT=2, MaxNow=4, Depth=7)),
                                   T: ("CfgsExpiry", dict(MaxCodes=2, MaxAT=4, MaxRT=3, MaxNow=5, Depth=9))},
                 genx={Q: ("CfgsExpiry", 4), T: ("CfgsExpiry", 5)},
@@ -190,34 +195,41 @@ def check(prop, tier, seed, replay=None):
         log("replay: no violation")
         return 0
 
-    # 1. design check (runs concurrently with generation/execution)
-    cfgs, b = p["mc"][tier]
+    # 1. design check (runs concurrently with generation/execution) and 2. behaviour generation,
+    #    for the property's family and any additional families
     pool = ThreadPoolExecutor(1)
-    mcwd = scratch(f"{prop}_{tier}_mc")
-    mcf = pool.submit(model_check, p["family"], cfgs, bounds(b), mcwd, 8)
-
-    # 2. behaviour generation
-    gx_cfgs, gx_depth = p["genx"][tier]
-    gb = bounds(dict(p["mc"][Q][1], Depth=gx_depth))
-    gb.update({k: v for k, v in p["simb"].items() if k in ("MaxDev", "MaxPar")})
-    hx, gxstat = gen_exhaustive(p["family"], gx_cfgs, gb, wd)
-    cap = 8000 if tier == Q else 120000
-    gx_total = len(hx)
-    if len(hx) > cap:      # keep a seeded sample; the evidence then does not claim exhaustiveness
-        random.Random(seed).shuffle(hx)
-        hx = hx[:cap]
-    s_cfgs, s_num, s_depth = p["sim"][tier]
-    hsim = gen_simulate(p["family"], s_cfgs, bounds(dict(p["simb"], Depth=s_depth)), wd, s_num, seed)
-    histories = hx + hsim
-    log(f"[gen] {len(hx)} exhaustive histories of depth {gx_depth}, {len(hsim)} simulated histories of depth {s_depth}")
+    parts = [p] + p.get("more", [])
+    mcfs, histories, gen_info = [], [], []
+    for n, part in enumerate(parts):
+        cfgs, b = part["mc"][tier]
+        mcwd = scratch(f"{prop}_{tier}_mc{n}")
+        mcfs.append((mcwd, pool.submit(model_check, part["family"], cfgs, bounds(b), mcwd, 8)))
+        gx_cfgs, gx_depth = part["genx"][tier]
+        gb = bounds(dict(part["mc"][tier][1], Depth=gx_depth))
+        hx, gxstat = gen_exhaustive(part["family"], gx_cfgs, gb, wd)
+        cap = 12000 if tier == Q else 200000
+        gx_total = len(hx)
+        if len(hx) > cap:      # keep a seeded sample; the evidence then does not claim exhaustiveness
+            random.Random(seed).shuffle(hx)
+            hx = hx[:cap]
+        s_cfgs, s_num, s_depth = part["sim"][tier]
+        hsim = gen_simulate(part["family"], s_cfgs, bounds(dict(part["simb"], Depth=s_depth)), wd, s_num, seed)
+        histories += hx + hsim
+        gen_info.append({"family": part["family"], "exhaustive_generation": {"depth": gx_depth, "cfgs": gx_cfgs, "histories": len(hx), "of": gx_total,
+                         "complete": len(hx) == gx_total, "states": gxstat.get("distinct", 0)},
+                         "simulated_generation": {"depth": s_depth, "cfgs": s_cfgs, "histories": len(hsim), "seed": seed}})
+        log(f"[gen] {part['family']}: {len(hx)} exhaustive histories of depth {gx_depth}, {len(hsim)} simulated histories of depth {s_depth}")
 
     # 3+4. execute on the real code, validate against the specification
     traces, rep = run_and_validate(binary, histories, wd, "main")
     st = rep["stats"]
     log(f"[validate] {st['histories']} traces, {rep['lines']} lines: matched {st['matched']}, soft {st.get('soft',0)}, diverged {st['diverged']}, skipped {st['skipped']}")
 
-    mc = mcf.result()
-    shutil.rmtree(mcwd, ignore_errors=True)
+    mcs = []
+    for mcwd, f in mcfs:
+        mcs.append(f.result())
+        shutil.rmtree(mcwd, ignore_errors=True)
+    mc = mcs[0]
 
     # 5. attribution
     viol, notes, known = {}, {}, {}
@@ -261,27 +273,36 @@ def check(prop, tier, seed, replay=None):
     # 6. binding self-test
     ncorrupt = selftest(binary, histories, wd, seed)
 
+    # 7. decision tables attached to this property
+    table_cov = None
+    import tables
+    if prop in tables.ATTACHED:
+        tv, table_cov = tables.run(tables.ATTACHED[prop], prop, tier, seed, binary, wd)
+        nviol += tv
+
     # vacuity: the alphabet must have exercised the reasons this property owns
     nontrivial = set()
     for h in histories:
         nontrivial.add(json.dumps(h["ops"], sort_keys=True))
     cov = {
-        "states": mc["distinct"], "transitions": mc["generated"],
+        "states": sum(x["distinct"] for x in mcs), "transitions": sum(x["generated"] for x in mcs),
         "traces_validated_against_impl": st["histories"],
         "samples": [histories[0], histories[len(histories) // 2], histories[-1]],
         "exhaustive": False,
         "evaluations": rep["lines"] - st["histories"],
         "distinct_nontrivial": len(nontrivial),
         "rule": "a case is one operation history generated by TLC from MCGrants.tla (all histories of the shallow depth plus seeded random deep ones), executed on the real code; distinct = distinct operation sequence",
-        "design_model_check": mc,
-        "exhaustive_generation": {"depth": gx_depth, "cfgs": gx_cfgs, "histories": len(hx), "of": gx_total, "complete": len(hx) == gx_total, "states": gxstat.get("distinct", 0)},
-        "simulated_generation": {"depth": s_depth, "cfgs": s_cfgs, "histories": len(hsim), "seed": seed},
+        "design_model_check": mcs,
+        "generation": gen_info,
         "trace_validation": st, "trace_lines": rep["lines"],
         "notes": {k: len(v) for k, v in notes.items()},
         "known_findings_seen": sorted(known.keys()),
         "selftest_corruptions_rejected": ncorrupt,
         "violation_replays": replays,
     }
+    if table_cov:
+        cov["decision_tables"] = table_cov
+        cov["violation_replays"] = replays + table_cov.get("violation_replays", [])
     write_evidence(prop, tier, seed, "model_checking", cov, time.time() - t0, nviol, [
         "TLC 1.8 and the CommunityModules Json module are trusted",
         "Go 1.26 testing/synctest fake clock: one tick = 10 min, operations take zero time",
